@@ -62,6 +62,18 @@ def scenarios(tier):
                                 n2 = "%s-other_events_%s" % (name, "first" if first else "last")
                                 sc[n2] = Scenario(n2, mkcfg(s2, markets=markets, agents=ags, events=ev2),
                                                   meta=dict(limit_rule=dict(targets=targets, r=r, enabled=enabled)))
+    # market names that are prefixes of each other: only the named one is a target
+    for targets in (["M"], ["M0"], ["M", "M00"]):
+        name = "prefix_names:%s" % "+".join(targets)
+        menu = menus(0.25, 1.0)
+        names = ["M", "M0", "M00"]
+        markets = [dict(name=n_, tick=1.0) for n_ in names]
+        ags = [dict(name="A0", menu=menu, program=[1, 14, 5, 27], markets=names),
+               dict(name="A1", menu=menu, program=[2, 15, 6, 28], markets=names)]
+        ev = {"PL": {"class": "PriceLimitRule", "targetMarkets": targets, "triggerChangeRate": 0.25}}
+        sessions = [S(0, 2, True, False, maxNormalOrders=2, events=["PL"]), S(1, 2, True, True, maxNormalOrders=2)]
+        sc[name] = Scenario(name, mkcfg(sessions, markets=markets, agents=ags, events=ev),
+                            meta=dict(limit_rule=dict(targets=targets, r=0.25, enabled=True)))
     # two rules in one run: different target sets and different rates
     for (ta, ra), (tb, rb) in (((["M0"], 0.125), (["M1"], 0.25)), ((["M1"], 0.25), (["M0"], 0.125)), ((["M0", "M1"], 0.25), (["M2"], 0.125))):
         name = "two_rules:%s@%s+%s@%s" % ("+".join(ta), ra, "+".join(tb), rb)
